@@ -190,8 +190,11 @@ def main():
                 if stage2:
                     b2 = _link(dsan, SAN, tmpc, f, scratch, src, "san")
                     if b2:
-                        r2 = common.run_lines(b2, items, tag="cm-s", nproc=16, prelude=["watchdog 5"])
+                        r2 = common.run_lines(b2, probe_items, tag="cm-sp", nproc=16, prelude=["watchdog 5"])
                         hit = any("crash" in r for r in r2)
+                        if not hit:
+                            r2 = common.run_lines(b2, items, tag="cm-s", nproc=16, prelude=["watchdog 5"])
+                            hit = any("crash" in r for r in r2)
                 if hit:
                     st["noticed_by_sanitizer"] += 1
                 else:
